@@ -12,6 +12,11 @@ CHECKS = {
   "design_ref": "DESIGN.md section 3 C10",
   "note": TRUST + " Sequential histories only in this check; the concurrent clause is exercised by the schedules of the C17 check.",
   "technique": "TLA+ reference + cache twin (TLC invariants), TLC-generated behaviours replayed into the code (transition cover + simulation)"},
+ "C12": {
+  "text": "Model-based conformance: Clos.tla recomputes precedence ('direct superclasses in the order written followed by theirs'), slot initialisation (initarg, most specific initform, unbound), reader, class-of and typep from the current definitions (design invariants checked by TLC); TLC enumerates histories of defclass (any order, forward references, redefinition) and make-instance steps - every transition of the bounded graph, the complete graph for two classes, random walks for five - and each is executed against slip several times (map iteration) and compared with the values TLC computed.",
+  "design_ref": "DESIGN.md section 3 C12",
+  "note": TRUST + " One open finding (an initarg shared by two slots) is matched by its exact shape only; everything else about those histories is still judged.",
+  "technique": "TLA+ reference, TLC-generated behaviours replayed into the code (transition cover + simulation)"},
  "C11": {
   "text": "Model-based conformance: Flavors.tla recomputes precedence, daemon order and variable inheritance from the definitions (order-independent by construction; design invariants checked by TLC); TLC's interleavings of defflavor/defmethod/defwhopper are the histories (exhaustive to the stated depth, random walks beyond); each is executed against slip and precedence list, daemon trace of a send, variable default/accessor/init keyword of every defined flavor are compared with the values TLC computed.",
   "design_ref": "DESIGN.md section 3 C11",
